@@ -3,11 +3,10 @@
 
    1. sort.Sort is ANY permutation of the input in which no later element is Less than an earlier one;
       errorSort is that followed by the removal of repeated neighbours.
-   2. "Strict weak order", and the classes of error texts on which sortedErrors.Less is one:
-      [uniform k]: every field after the file name that exists is, per position, of the kind k prescribes --
-      a canonical decimal numeral within int range (what %d prints for a line or column) or a text Atoi rejects.
-      [positioned] = file:line:col:text with numeric line, col and a non-numeric text: every error goyang reports
-      for a statement of a named file.
+   2. "Strict weak order" / "total" on a class; the theorems take the class of ALL texts.
+      [positioned] = file:line:col:text with line and col canonical decimal numerals within int range (what %d
+      prints) and a text Atoi rejects: every error goyang reports for a statement of a named file.  ([uniform k] is
+      the auxiliary notion positioned is defined with.)
    3. The key (file, line, col, text) a positioned error is ordered by, numbers compared as numbers.
    4. Order-independence of folds: the equivalences used for `range` over a Go map in the resolver model. *)
 From Coq Require Import List NArith ZArith Bool Permutation Sorted.
@@ -26,6 +25,9 @@ Definition is_sort_of {A} (lt : A -> A -> bool) (l p : list A) : Prop :=
 (* every result errorSort can return when sort.Sort is any correct sort *)
 Definition errorSort_any (l out : list bstr) : Prop :=
   exists p, is_sort_of Less l p /\ out = dedup p.
+(* the same before the repair of Less (for the _refuted theorems) *)
+Definition errorSort_any_old (l out : list bstr) : Prop :=
+  exists p, is_sort_of Less_old l p /\ out = dedup p.
 
 (* ------------------------------------------------------------------ orders on a class *)
 Record strict_weak_order_on {A} (P : A -> Prop) (lt : A -> A -> bool) : Prop := {
@@ -66,13 +68,6 @@ Definition k_positioned : list bool := [true; true; false].
 Definition positionedb (s : bstr) : bool :=
   uniformb k_positioned s && Nat.eqb (length (splitN errorSplitCount s)) 4.
 Definition positioned (s : bstr) : Prop := positionedb s = true.
-
-(* used by the correspondence check: is there one k for the whole list? *)
-Definition all_kinds : list (list bool) :=
-  [ [true; true; true]; [true; true; false]; [true; false; true]; [true; false; false];
-    [false; true; true]; [false; true; false]; [false; false; true]; [false; false; false] ].
-Definition uniform_list (l : list bstr) : bool :=
-  existsb (fun k => forallb (uniformb k) l) all_kinds.
 
 (* ------------------------------------------------------------------ the key of a positioned error *)
 Record poskey := { k_file : bstr; k_line : Z; k_col : Z; k_text : bstr }.
@@ -121,3 +116,10 @@ Definition lookup_equiv {A} (F F' : list (Schema.str * A)) : Prop :=
   forall k, Schema.lookup k F = Schema.lookup k F'.
 
 Definition distinct_names (SC : Schema.schema) : Prop := NoDup (map Schema.m_name SC).
+
+(* the forest and the pending-augment table Process starts from (its F0 and P0, verbatim) *)
+Definition F0_of (SC : Schema.schema) (ic : bool) : Schema.forest :=
+  map (fun x => (Schema.m_name (fst x), fst (snd x)))
+      (filter (fun x => negb (Schema.is_sub (fst x))) (map (fun m => (m, Schema.module_entry SC ic m)) SC)).
+Definition P0_of (SC : Schema.schema) : Schema.pendings :=
+  map (fun m => (Schema.m_name m, Schema.module_augs SC m)) SC.
